@@ -323,3 +323,60 @@ def op_after_reads(V, cls, op):
     ops.update(ACC_OPS)
     readers = CS.READERS_ACC if cls == 'AccSignal' else CS.READERS_SIGNAL
     run_op(V, cls, op, ops[op], readers, prewarm=True)
+
+
+# ---------------------------------------------------------------------------- the smoothing settings mean what they say
+@unit('C04', 'smoothing-settings-setters', functions=[S_ + 'Signal.smooth_freq_range', S_ + 'Signal.smooth_freq_points', S_ + 'Signal.smooth_fa_freqs',
+                                                     S_ + 'Signal.set_smooth_fa_frequecies_by_range'],
+      cases=[dict(cls=c, op=o) for c in ('Signal', 'AccSignal') for o in ('points', 'range', 'by_range', 'freqs')], modes=('unbounded',), budget_ms=10000)
+def smoothing_settings(V, cls, op):
+    """From an ARBITRARY state (any smoothing frequencies, whatever stale bookkeeping the object carries): after `smooth_freq_points = k` the
+    smoothing frequencies are k log-spaced points over the range CURRENTLY in force (first and last of the frequencies held before);
+    after `smooth_freq_range = (a, b)` the CURRENT number of points over (a, b); `set_smooth_fa_frequecies_by_range(limits, k)` k points
+    over the limits; `smooth_fa_freqs = f` exactly f.  A fresh object with those settings reports the same frequencies, so these clauses
+    are what 'equals a freshly constructed object with the same settings' means for the settings themselves."""
+    st = {}
+
+    def setup():
+        CS.install_cache_summaries(V)
+        o = CS.make_state(V, cls)
+        pre = o.attrs['_smooth_fa_freqs']
+        m = pre.shape[0]
+        V.assume(pre[0] > 0, pre[T.ssub(m, 1)] > 0)
+        k = V.int('k_points')
+        V.assume(k >= 1)
+        a, b = V.real('lim_a'), V.real('lim_b')
+        V.assume(a > 0, b > 0)
+        f = V.array('new_freqs', z3.Int('n_new'), origin='param')
+        V.assume(z3.Int('n_new') >= 1)
+        st.update(o=o, pre0=pre[0], pre1=pre[T.ssub(m, 1)], m=m, k=k, a=a, b=b, f=f)
+        return ((o,), {})
+
+    def run(itp, o):
+        if op == 'points':
+            itp.set_attr(o, 'smooth_freq_points', st['k'])
+        elif op == 'range':
+            itp.set_attr(o, 'smooth_freq_range', (st['a'], st['b']))
+        elif op == 'by_range':
+            itp.call(itp.get_attr(o, 'set_smooth_fa_frequecies_by_range'), [(st['a'], st['b']), st['k']], {})
+        else:
+            itp.set_attr(o, 'smooth_fa_freqs', st['f'])
+        return itp.get_attr(o, 'smooth_fa_freqs')
+    for out in V.run(run, setup):
+        if not out.no_raise():
+            continue
+        out.replay_info = dict(module='objects', kind='c04-smoothing-settings', cls=cls, op=op)
+        got = out.result
+        lg = lambda v: V.np.np_log10(v)
+        if op == 'points':
+            want = V.np.np_logspace(lg(st['pre0']), lg(st['pre1']), st['k'], base=10)
+        elif op == 'range':
+            want = V.np.np_logspace(lg(st['a']), lg(st['b']), st['m'], base=10)
+        elif op == 'by_range':
+            want = V.np.np_logspace(lg(st['a']), lg(st['b']), st['k'], base=10)
+        else:
+            want = st['f']
+        out.prove('smoothing-frequencies-are-what-the-settings-say/count', T.seq(got.shape[0], want.shape[0]))
+        for j in V.idx(0, want.shape[0], 'jf'):
+            out.prove('smoothing-frequencies-are-what-the-settings-say/values', T.seq(got[j], want[j]))
+        out.prove('smoothed-spectrum-is-dropped', T.seq(st['o'].attrs['_cached_smooth_fa'], False))
